@@ -169,9 +169,12 @@ def file_to_blocks(include_path, lazy_file, delimiter=None):
             if not text:
                 return []
             parts = text.split(delimiter)
+            # no empty trailing element if the file ends with the delimiter
+            # (same rule as in ``decode``)
             yield from (
                 (line, lazy_file.path) if include_path else line
-                for line in [line + delimiter for line in parts[:-1]] + parts[-1:]
+                for line in [line + delimiter for line in parts[:-1]]
+                + ([parts[-1]] if parts[-1] else [])
             )
         else:
             for line in f:
@@ -186,14 +189,18 @@ def attach_path(block, path):
 def decode(block, encoding, errors, line_delimiter):
     # blocksize is not None branch
     text = block.decode(encoding, errors)
-    if line_delimiter in [None, "", "\n", "\r", "\r\n"]:
+    if line_delimiter in [None, "", "\n"]:
         lines = io.StringIO(text, newline=line_delimiter)
         return list(lines)
     else:
+        # this includes "\r" and "\r\n": StringIO(text, newline="\r\n") would
+        # rewrite every "\n" of ``text`` as "\r\n" before splitting
         if not text:
             return []
         parts = text.split(line_delimiter)
+        # keep the tail unless it is empty; ``text.endswith(line_delimiter)``
+        # is not the same thing for delimiters like "aa" ("aaa" -> "aa", "a")
         out = [t + line_delimiter for t in parts[:-1]] + (
-            parts[-1:] if not text.endswith(line_delimiter) else []
+            [parts[-1]] if parts[-1] else []
         )
         return out
